@@ -54,6 +54,8 @@ class Worker:
     the next call."""
 
     def __init__(self, flavour="fast", bindir=None, extra_env=None, stack_kb=None):
+        if os.environ.get("UTAPV_COV") and bindir is None:
+            flavour = "cov"       # tools/coverage.sh: the same checks on a gcov-instrumented build
         self.flavour = flavour
         self.bindir = bindir or build.ensure(flavour, quiet=True)
         self.exe = os.path.join(self.bindir, "utapv")
@@ -333,7 +335,7 @@ class Report:
     # -- finish -----------------------------------------------------------------------
     def finish(self, coverage_extra=None):
         wall = time.time() - self.t0
-        rdir = os.path.join(VERIF, "replays", self.pid)
+        rdir = os.path.join(os.environ.get("UTAPV_OUT_DIR", VERIF), "replays", self.pid)
         lines = []
         for key, (desc, sig, detail) in sorted(self.known_hit.items()):
             lines.append("KNOWN-FINDING: property=%s key=%s %s" % (self.pid, key, desc))
@@ -369,8 +371,9 @@ class Report:
             "wall_s": round(wall, 2),
             "violations": nviol,
         }
-        os.makedirs(os.path.join(VERIF, "evidence"), exist_ok=True)
-        with open(os.path.join(VERIF, "evidence", self.pid + ".json"), "w") as fh:
+        edir = os.path.join(os.environ.get("UTAPV_OUT_DIR", VERIF), "evidence")     # (UTAPV_OUT_DIR: diagnostic runs only)
+        os.makedirs(edir, exist_ok=True)
+        with open(os.path.join(edir, self.pid + ".json"), "w") as fh:
             json.dump(ev, fh, indent=1, default=str)
         for ln in lines:
             print(ln)
